@@ -276,6 +276,14 @@ def scrape_conc():
         facts["release_frees_on"] = int(m.group(1))
     else:
         problems.append("wrapper.rs: cannot find the value on which release frees")
+    # the decrement that may free must synchronise with every earlier release and method body: a
+    # sequentially consistent or acquire-release decrement, or the Arc idiom (Release decrement, then
+    # an Acquire fence before the free).  The interleaving model of Conc.v is sequentially consistent;
+    # this fact is what lets it speak about the code.
+    mo = re.search(r"fetch_sub\(\s*1\s*,\s*Ordering::(\w+)\s*\)", rel)
+    order = mo.group(1) if mo else None
+    fence_before_free = bool(re.search(r"fence\(\s*Ordering::(Acquire|AcqRel|SeqCst)\s*\)(.|\n)*Box::from_raw", rel))
+    facts["release_synchronizes"] = order in ("SeqCst", "AcqRel") or (order == "Release" and fence_before_free)
     facts["refs_starts_at"] = 1 if re.search(r"refs:\s*AtomicUsize::new\(1\)", w) else 0
     facts["inner_is_mutex"] = bool(re.search(r"pub inner:\s*Mutex<Box<T>>", w))
     inv = read("idlc_codegen_rust/src/interface/functions/invoke.rs")
@@ -288,7 +296,7 @@ def scrape_conc():
 def render_conc(facts):
     out = ["(* GENERATED by lib/translate.py from tests/src/object/wrapper.rs and the Rust skeleton emitter. *)",
            "Require Import Base.", ""]
-    for k in ("retain_is_rmw", "release_is_rmw", "inner_is_mutex", "arm_locks_before_call", "arm_holds_lock_during_call"):
+    for k in ("retain_is_rmw", "release_is_rmw", "release_synchronizes", "inner_is_mutex", "arm_locks_before_call", "arm_holds_lock_during_call"):
         out.append("Definition %s : bool := %s." % (k, "true" if facts.get(k) else "false"))
     out.append("Definition release_frees_on : nat := %d." % facts.get("release_frees_on", 0))
     out.append("Definition refs_starts_at : nat := %d." % facts.get("refs_starts_at", 0))
